@@ -11,7 +11,7 @@ THEOREMS = ['Otel.C10.' + t for t in (
     'older_unaffected_step', 'older_unaffected', 'older_unaffected_answers', 'new_context_fresh',
     'attach_makes_current', 'detach_attach_restores', 'detach_out_of_order_unwinds', 'detach_most_recent_first', 'detach_foreign_noop',
     'detach_foreign_result', 'detach_eq_spec', 'balanced_restores', 'attach_above_detach_restores',
-    'scope_open_activates_span', 'scope_release_restores_span', 'scope_nested_release_reactivates',
+    'scope_open_activates_span', 'scope_release_restores_span', 'scope_release_after_program', 'scope_nested_release_reactivates',
     'thread_isolation_step', 'thread_isolation', 'ctxSpanKey_eq')]
 HARNESSES = [Harness('f_c10', ['harness/f_c10.cc'])]
 H = 'f_c10'
@@ -21,7 +21,9 @@ RULE = ('programs of 50-400 operations (SetValue / SetValues incl. empty and dup
         'and from another thread / full stack dumps) over a growing family of contexts on 1-3 real threads sequentialised by '
         'a baton; keys with embedded NULs, prefixes of one another, empty and null-data keys; stack depths to 300 (every '
         'Resize 2,6,14,30,62,126,254,510 crossed); after EVERY operation EVERY earlier context is re-queried on all pool '
-        'keys (chk=n) and every other thread\'s depth/top is re-read. non-trivial = a well-formed program that creates a '
+        'keys (chk=n) and every other thread\'s depth/top is re-read; `conc` operations start fresh OS threads that run attach/'
+        'scope/out-of-order-detach rounds truly concurrently over the shared contexts, each checking its own observations against '
+        'the stack rule. non-trivial = a well-formed program that creates a '
         'context and attaches; distinct = distinct program line')
 TRUSTED = ['harness reads Stack::size_/base_ through `#define private public` (depth and dumps only; top is GetCurrent())',
            'real threads are sequentialised: data-race freedom of the shared_ptr reference counts is not exercised here']
@@ -144,13 +146,15 @@ class Gen:
             self.ops.append(f'close {t} {j}'); self.scopes[j] = False
         elif kind in ('cur', 'span', 'dump'):
             self.ops.append(f'{kind} {t}')
+        elif kind == 'conc':
+            self.ops.append(f'conc {t} {self.rng.choice([1, 2, 3, 5, 8])}'); self.flags.add('true-concurrency')
 
     def line(self):
         return f'ctx {self.n} {",".join(hx(k) for k in self.pool)} ; ' + ' ; '.join(self.ops)
 
 
 WEIGHTS = {
-    'mixed': dict(set=14, setm=6, mk=2, mk1=1, get=12, rset=3, rget=4, attach=14, detach=12, drop=3, scope=6, close=5, cur=5, span=6, dump=2),
+    'mixed': dict(set=14, setm=6, mk=2, mk1=1, get=12, rset=3, rget=4, attach=14, detach=12, drop=3, scope=6, close=5, cur=5, span=6, dump=2, conc=0.15),
     'contexts': dict(set=30, setm=14, mk=4, mk1=2, get=30, rset=4, rget=4, attach=3, detach=2, cur=1, span=1),
     'stack': dict(set=4, get=2, attach=30, detach=26, drop=5, scope=6, close=5, cur=8, span=6, dump=4, rget=3),
     'scopes': dict(set=4, attach=6, detach=5, scope=28, close=24, span=22, cur=5, dump=3, rset=3),
@@ -244,6 +248,7 @@ def corpus():
     c('ctx 1 6b ; attach 0 0 ; detach 0 0 ; detach 0 0 ; dump 0', 'default-context-token')
     c('ctx 2 6163746976655f7370616e ; span 0 ; scope 0 1 ; span 0 ; span 1 ; scope 0 2 ; span 0 ; close 0 0 ; span 0 ; dump 0 ; close 1 1 ; span 0', 'scope')
     c('ctx 1 6163746976655f7370616e ; set 0 0 6163746976655f7370616e i:5 ; attach 0 1 ; span 0 ; scope 0 3 ; span 0 ; close 0 0 ; span 0', 'scope')
+    c('ctx 3 6b,6163746976655f7370616e ; set 0 0 6b i:1 ; set 1 1 6b i:2 ; attach 0 1 ; attach 2 2 ; conc 1 20 ; dump 0 ; dump 1 ; dump 2 ; get 0 2 6b', 'true-concurrency')
     return out
 
 
@@ -437,6 +442,10 @@ def reference(line):
                 detach(t, scopes[j][0]); scopes[j][1] = False; obs = 'ok'
             elif name == 'dump' and not a:
                 obs = '[' + ','.join(f'c{c}' for c in reversed(stacks[t])) + ']'
+            elif name == 'conc' and len(a) == 1:
+                if p_nat(a[0]) > 50:
+                    raise Bad(g)
+                obs = 'conc=ok'      # balanced rounds on fresh threads: nothing of it may remain visible
             else:
                 raise Bad(g)
             outs.append((name, f'{obs} @{len(stacks[t])}:c{top(t)} chk={before}'))
@@ -450,7 +459,8 @@ CLAUSE = {'set': 'new-context-shadows-and-inherits', 'setm': 'new-context-shadow
           'get': 'most-recent-binding-returned', 'rget': 'most-recent-binding-returned',
           'attach': 'attach-makes-current', 'detach': 'detach-restores-previous', 'drop': 'detach-restores-previous',
           'cur': 'current-is-top-of-stack', 'dump': 'stack-discipline', 'span': 'scope-release-restores-span',
-          'scope': 'scope-activates-span', 'close': 'scope-release-restores-span'}
+          'scope': 'scope-activates-span', 'close': 'scope-release-restores-span',
+          'conc': 'threads-concurrently-isolated'}
 
 
 def oracle(case, out):
@@ -498,7 +508,8 @@ LEVEL_TEXT = ('Lean 4 theorems over an executable model of context.h / runtime_c
               '(baton-sequentialised, thread_local real) with every earlier context re-queried after every op, depth to 300.')
 LEVEL_NOTE = ('Trusted: Lean kernel; axioms propext/Quot.sound/Classical.choice at most; tools/gen_c10.py; harness, generators, '
               'canonicalisation; private access to Stack::size_/base_ for depth and dumps. Partial: true thread-locality and '
-              'data-race freedom are runtime facts (threads are real but sequentialised; no TSan run in this check); memory '
+              'data-race freedom are runtime facts (threads are real; the interleaving of the program is sequentialised by a baton, the '
+              '`conc` operations run truly concurrent rounds under ASan/UBSan; no TSan run in this check); memory '
               'safety (owned key copies, Resize) is shown by ASan/UBSan runs, not by a theorem; address reuse of freed head nodes '
               'is excluded because tokens keep their context alive. Models the code after fix D19 (key-less node of an empty '
               'container binds nothing; no memcmp/memcpy on null for zero-length keys).')
